@@ -260,7 +260,10 @@ def main(argv=None):
     ev = {"property_id": pid, "tier": a.tier, "seed": seed, "level": getattr(mod, "LEVEL", "exploration"), "coverage": cov,
           "assumptions": list(getattr(mod, "ASSUMPTIONS", [])), "wall_s": round(wall, 2), "violations": len(violations)}
     from vlib.evidence import write_evidence
-    write_evidence(pid, ev)
+    n_crash = sum(b["count"] for b in unknown if b["key"].startswith("crash:"))
+    cov["evaluations"] += n_crash
+    cov["crashed_cases"] = n_crash
+    write_evidence(pid, ev, strict=not violations)
 
     for b, path in violations:
         print("FAIL clause=%s key=%s count=%d: %s" % (b["clause"], b["key"], b["count"], b["replay_msg"]))
